@@ -304,7 +304,7 @@ theorem containsScan_complete : ∀ (v e : List Nat), v.Pairwise (· < ·) → e
 
 /-- **sortedContains_iff** — on strictly ascending inputs with `|elems| ≤ |v|` (what the callers guarantee),
     `sequential_sorted_contains(v, elems)` holds exactly when every element of `elems` occurs in `v` -/
-theorem sortedContains_iff (v e : List Nat) (hv : v.Pairwise (· < ·)) (he : e.Pairwise (· < ·)) (hl : e.length ≤ v.length) :
+theorem sortedContains_iff (v e : List Nat) (hv : v.Pairwise (· < ·)) (he : e.Pairwise (· < ·)) (_hl : e.length ≤ v.length) :
     sortedContains v e = true ↔ ∀ k ∈ e, k ∈ v := by
   constructor
   · intro h k hk; exact (sortedContains_sublist v e h).subset hk
